@@ -201,3 +201,34 @@ func (p *Prog) FnsReaching(names ...string) map[*Fn]bool {
 	}
 	return out
 }
+
+// FnsReachingExcept is FnsReaching with barrier functions: a path through one of them does not count
+// (the barriers themselves are not in the result unless they call a named callee directly... they are
+// never added).
+func (p *Prog) FnsReachingExcept(barrier map[*Fn]bool, names ...string) map[*Fn]bool {
+	out := map[*Fn]bool{}
+	for _, f := range p.Fns {
+		if f.Body == nil || barrier[f] {
+			continue
+		}
+		if len(p.CallsIn(f, names...)) > 0 {
+			out[f] = true
+		}
+	}
+	for changed := true; changed; {
+		changed = false
+		for _, f := range p.Fns {
+			if out[f] || f.Body == nil || barrier[f] {
+				continue
+			}
+			for _, g := range p.Callees(f) {
+				if out[g] && !barrier[g] {
+					out[f] = true
+					changed = true
+					break
+				}
+			}
+		}
+	}
+	return out
+}
